@@ -791,6 +791,31 @@ func (c *cenv) call(n *ast.CallExpr) Val {
 				iv := c.eval(n.Args[1])
 				fmt.Sscanf(iv.T, "%d", &idx)
 			}
+			nth := 0 // 0 = last call; k >= 1 = k-th call of that name on this path
+			if len(n.Args) > 2 {
+				nv := c.eval(n.Args[2])
+				fmt.Sscanf(nv.T, "%d", &nth)
+			}
+			if nth > 0 {
+				seen := 0
+				for i := 0; i < len(c.post.calls); i++ {
+					r := c.post.calls[i]
+					if lastName(r.Name) != callee {
+						continue
+					}
+					seen++
+					if seen == nth {
+						if r.Res.K == kTuple {
+							if idx < len(r.Res.Elems) {
+								return r.Res.Elems[idx]
+							}
+							return c.errf("callres: result index out of range")
+						}
+						return r.Res
+					}
+				}
+				return c.errf("callres: fewer than %d calls of %s on this path", nth, callee)
+			}
 			for i := len(c.post.calls) - 1; i >= 0; i-- {
 				r := c.post.calls[i]
 				if lastName(r.Name) != callee {
